@@ -31,7 +31,7 @@ REGISTRY = {
                  '+ direct identity oracle',
 }
 
-KINDS = cm.APRIORI + ['tagged', 'named']
+KINDS = cm.APRIORI + ['tagged', 'named', 'alts', 'alts']
 
 
 def gen_kw(rng, adduct_p=0.2):
@@ -82,6 +82,24 @@ def value_gap(v, mono):
     from peptacular.mass_calc import mod_mass
     from peptacular.chem.chem_calc import mod_comp, _parse_mod_delta_mass_only
     from peptacular.chem.chem_util import chem_mass
+    if isinstance(v, str) and '|' in v:
+        # several alternatives: both calculators must speak about the SAME alternative (the first one that means something);
+        # the row gap that may be excused is the gap of that alternative alone - a disagreement between different
+        # alternatives (mass of one, composition of another) is a violation, not a table inconsistency
+        for alt in v.split('|'):
+            try:
+                mod_mass(alt, mono)
+            except Exception:  # noqa
+                continue
+            g = value_gap(alt, mono)
+            if g is None:
+                return None
+            try:
+                m = mod_mass(v, mono)
+            except Exception:  # noqa
+                return None
+            return (g[0], abs(m))
+        return None
     try:
         d = _parse_mod_delta_mass_only(v)
         m = mod_mass(v, mono)
@@ -466,6 +484,30 @@ def run(chk):
         if rng.random() < 0.6:
             kw['charge'] = rng.randint(-2, 3)
         ocases.append((a, kw))
+    for v in cm.ALTS:
+        for pos in ('n', 'c', 'i', 'u', 'l', 'v', 's', 'sn'):
+            seq = rng.choice(['PEPTIDE', 'ACDTTK', 'MTW'])
+            a = ProFormaAnnotation(_sequence=seq)
+            m = [Mod(v, rng.choice([1, 1, 2]))]
+            if pos == 'n':
+                a._nterm_mods = m
+            elif pos == 'c':
+                a._cterm_mods = m
+            elif pos == 'i':
+                a._internal_mods = {rng.randint(0, len(seq) - 1): m}
+            elif pos == 'u':
+                a._unknown_mods = m
+            elif pos == 'l':
+                a._labile_mods = m
+            elif pos == 'v':
+                from peptacular.proforma.proforma_dataclasses import Interval
+                a._intervals = [Interval(0, 2, False, m)]
+            elif pos == 's':
+                a._static_mods = [Mod(f'[{v}]@T', 1)]
+            else:
+                a._static_mods = [Mod(f'[{v}]@N-Term,{seq[-1]}', 1)]
+            ocases.append((a, {'ion_type': rng.choice(['p', 'p', 'b', 'y', 'cz']), 'monoisotopic': rng.random() < 0.5,
+                               **({'charge': rng.randint(0, 3)} if rng.random() < 0.6 else {})}))
     while len(ocases) < budget:
         a = cm.gen_annotation(rng, kinds=KINDS, isotope_p=0.15, charge_p=0.35)
         kw = gen_kw(rng)
@@ -513,7 +555,7 @@ def classify(f):
         a, kw = c02h.case_of(case)
         ad = kw.get('charge_adducts')
         if ad is None and a._charge_adducts:
-            ad = a._charge_adducts[0].val
+            ad = ','.join(str(m.val) for m in a._charge_adducts)
         if isinstance(ad, str) and c02h._adduct_count_matters(ad):
             import re
             from peptacular.constants import ELECTRON_MASS
